@@ -289,6 +289,8 @@ def _case(seed: int) -> Dict[str, Any]:
               p_same_ts_kernel=0.3)
     if seed % 3 == 2:
         kw["p_other_launch"] = 0.4  # linked host calls outside the usual launch names (graph / cooperative launches, synchronous copies): still the call that launched the activity
+    if seed % 5 == 3:
+        kw["p_frac_kernel_dur"] = 0.6  # whole-number timestamps, fractional kernel durations: the loader leaves such a file as it is, gaps are exact fractions
     two_ranks = seed % 4 == 1  # one call for two ranks whose device streams differ (rank 1's streams are renumbered): every rank reports ITS streams
     per_rank = gen.gen_trace_set(seed, n_ranks=2 if two_ranks else 1, **kw)
     if two_ranks:
@@ -335,7 +337,8 @@ def _case(seed: int) -> Dict[str, Any]:
                     host_ts_of_corr[int(c_)] = int(t_)
             for s in (subset or all_streams):
                 ks = dev[dev["stream"] == s].sort_values("ts", kind="stable")
-                rows = [(int(a), int(b), int(c)) for a, b, c in zip(ks["ts"], ks["dur"], ks["correlation"])]
+                fdur = {i: e["dur"] for i, e in gen.complete_events(per_rank[rk])}  # durations are the file's (row id = position in the file)
+                rows = [(int(a), (lambda x: int(x) if float(x) == int(x) else float(x))(fdur.get(int(i), b)), int(c)) for i, a, b, c in zip(ks["index"], ks["ts"], ks["dur"], ks["correlation"])]
                 exp = {"host_wait": 0, "kernel_wait": 0, "other": 0}
                 seen = set()
                 ok_order = all(rows[i][0] + rows[i][1] <= rows[i + 1][0] for i in range(len(rows) - 1))
